@@ -69,6 +69,35 @@ def consume(make):
         ways["after-exhaustion"] = ref + list(it)
         it2 = iter(make())
         ways["iter(iter)"] = [x for x in it2]
+        # one item by next(), the rest by a for loop / list(): iter() on a started iterator must not rewind it
+        it3 = make()
+        head = []
+        try:
+            head.append(next(it3))
+        except StopIteration:
+            pass
+        ways["next() then list()"] = head + list(it3)
+        it4 = make()
+        head = []
+        for x in it4:
+            head.append(x)
+            break
+        ways["for-break then for"] = head + [x for x in it4]
+        # built here, drained on another thread (the core iterators are Send)
+        import threading
+        it5 = make()
+        box = []
+        def drain():
+            try:
+                box.append(list(it5))
+            except BaseException as e:  # noqa
+                box.append(f"{type(e).__name__}:{e}")
+        th = threading.Thread(target=drain)
+        th.start()
+        th.join()
+        if not box or not isinstance(box[0], list):
+            return ref, f"consumption:another thread: {box[0] if box else 'no result'}"
+        ways["another thread"] = box[0]
     except BaseException as e:  # noqa
         return ref, f"consumption:{type(e).__name__}:{e}"
     for name, v in ways.items():
